@@ -87,6 +87,21 @@ pub fn timestamps() -> Vec<Timestamp> {
         min + 1,
         max - 999_999_999,
         min + 999_999_999,
+        // thresholds of *derived* quantities: the nanosecond count crossing
+        // 2^63 (an instant in 2262 / 1677) and 2^53, the microsecond count
+        // crossing 2^53 - boundaries for code that computes in i64 or f64
+        // although the second count is unremarkable there
+        (1i128 << 63) - 1,
+        1i128 << 63,
+        (1i128 << 63) + 145_224_191,
+        9_223_372_036_999_999_999,
+        -(1i128 << 63),
+        -(1i128 << 63) - 1,
+        -9_223_372_036_999_999_999,
+        (1i128 << 53) + 1,
+        -(1i128 << 53) - 1,
+        ((1i128 << 53) + 1) * 1_000,
+        -((1i128 << 53) + 1) * 1_000 - 1,
     ];
     raw.into_iter().map(|n| Timestamp::from_nanosecond(n).unwrap()).collect()
 }
